@@ -23,11 +23,13 @@ type ledger struct {
 	creditStream map[uint32]int64
 	accConn      int64
 	accStream    map[uint32]int64
+	framesSent   map[uint32]int     // DATA frames delivered to the receiver, per stream
+	accFrames    map[uint32][]int64 // flow-controlled size of every DATA frame the relay accepted, per stream, in order
 }
 
 func newLedger() *ledger {
 	return &ledger{initial: 65535, maxFrame: 16384, connGranted: 65535, streamInc: map[uint32]int64{}, streamSent: map[uint32]int64{},
-		creditStream: map[uint32]int64{}, accStream: map[uint32]int64{}}
+		creditStream: map[uint32]int64{}, accStream: map[uint32]int64{}, accFrames: map[uint32][]int64{}, framesSent: map[uint32]int{}}
 }
 
 func (l *ledger) connWindow() int64            { return l.connGranted - l.connSent }
@@ -49,6 +51,7 @@ func (l *ledger) observe(w *world) map[uint32]bool {
 			vf.Assert(n <= l.maxFrame, "data-frame-within-max-frame-size")
 			l.connSent += n
 			l.streamSent[d.StreamID] += n
+			l.framesSent[d.StreamID]++
 			emitted[d.StreamID] = true
 		}
 	}
@@ -79,13 +82,14 @@ func (l *ledger) check(w *world, emitted map[uint32]bool, streams []uint32) {
 	vf.Assert(l.creditConn == l.accConn, "connection-credit-equals-flow-controlled-length")
 	for _, id := range streams {
 		vf.Assert(l.creditStream[id] == l.accStream[id], "stream-credit-equals-flow-controlled-length")
-		// nothing stranded: the head of the stream's queue does not fit
-		if ob, ok := w.cToS.outputBuffers[id]; ok {
-			if e := ob.queue.Front(); e != nil {
-				z := int64(e.Value.(queuedFrame).flowControlSize())
-				fits := z <= l.connWindow() && z <= l.streamWindow(id)
-				vf.Assert(!fits, "no-stranded-frame")
-			}
+		// nothing stranded: the oldest accepted DATA frame of the stream that has not been delivered
+		// yet (frames are relayed one for one and in order in this harness: no frame exceeds the
+		// maximum frame size) would not fit the windows the receiver has granted. The accepted
+		// flow-controlled size is used, which is never smaller than what the relay forwards.
+		if k := l.framesSent[id]; k < len(l.accFrames[id]) {
+			z := l.accFrames[id][k]
+			fits := z <= l.connWindow() && z <= l.streamWindow(id)
+			vf.Assert(!fits, "no-stranded-frame")
 		}
 	}
 }
@@ -131,6 +135,7 @@ func VerifC09History() {
 			vf.Assert(err == nil, "harness-write-data")
 			l.accConn += fc
 			l.accStream[id] += fc
+			l.accFrames[id] = append(l.accFrames[id], fc)
 			vf.Assert(w.pumpClient() == nil, "relay-accepts-data")
 			vf.Reach("data")
 		case 1: // SETTINGS(initial window) from the server
